@@ -482,7 +482,10 @@ class LoopMixin:
         objs = []
         allowed = []
         for n in spec.modifies:
-            v = env.lookup(n)
+            try:
+                v = env.lookup(n)
+            except KeyError:
+                raise Unsupported(f'the loop invariant says the loop modifies {n!r}, which is not a local here')
             objs.append((n, v))
             allowed.append(v)
             if isinstance(v, Instance):
